@@ -127,7 +127,9 @@ ALERT_HEADER = ("From TV Require Import Base Model.Wiring Model.Ticker Model.Com
                 "Proofs.AlertP Proofs.AlertReplayP.")
 ALERT_REASONS = {30: "a step of the real schedulers is not a step of the alert protocol", 31: "a system simulation asked for another callback than the protocol's",
                  32: "the master ticked components that are not due at the earliest wakeup", 33: "a nested tick left out a pending interrupt or a due wakeup",
-                 34: "an interrupt is owed but not queued up to the master", 35: "the nesting is not a tree"}
+                 34: "an interrupt is owed but not queued up to the master", 35: "the nesting is not a tree",
+                 36: "the run ends with a tick still running or a message never delivered",
+                 37: "the run ends with an interrupt that was never served"}
 
 
 def alert_run(cfg, devs, stim, pol, bseed, initial=0):
@@ -187,7 +189,49 @@ def alert_part(ck, tier, rng):
                        stim=[list(x) for x in c["stim"]], schedule=c["schedule"], initial=c["initial"], codes=bad[i],
                        events_around=[list(map(str, e)) for e in c["run"]["alert"][max(0, (bad[i][1] if len(bad[i]) > 1 else 0) - 12):(bad[i][1] if len(bad[i]) > 1 else 0) + 2]],
                        broken="correspondence Model/Alert.v vs the real schedulers on the delaying bus; C07_no_interrupt_lost_at_any_depth"),
-                  no_input=(code != 34))
+                  no_input=(code not in (34, 36, 37)))
+
+
+def alert_two_part(ck, tier, rng):
+    """two interrupts inside one system simulation, the second raised at every event-loop step after the first (while the
+    first one travels up, while the tick it causes runs at either level, after it): recorded on the bus, replayed in the alert
+    protocol, and the run must settle with both served (36, 37)"""
+    import cbus
+    EXT, EXP = 1, 2
+    configs = [({1: dict(order=[(3, 2)], conns=[]), 2: dict(order=[(4, "dev"), (5, "dev")], conns=[])},
+                {4: (11, 300_000_000, 0), 5: (11, 300_000_000, 0)}),
+               ({1: dict(order=[(3, "dev"), (4, 2)], conns=[(3, 1, 4, 1)]),
+                 2: dict(order=[(5, "dev"), (6, 3)], conns=[(EXT, 1, 5, 1), (5, 1, EXP, 1)]),
+                 3: dict(order=[(7, "dev")], conns=[])},
+                {3: (12, 300_000_000, 0), 5: (12, 300_000_000, 0), 7: (12, 300_000_000, 0)})]
+    t0, t_end = 100_000_333, 400_000_003
+    cases, terms = [], []
+    for cfg, devs in configs:
+        inner = [x for x in slevel.devices_of(cfg) if slevel.path_of(cfg, x)[1]]
+        first = inner[0]
+        base = slevel.run_internal(cfg, devs, (1, 1), 0, [(t0, first)], t_end, bus=cbus.CBus(rng, "fifo"))
+        nsteps = base["steps"] or 200
+        for d in inner:
+            for k in range(1, nsteps, 1 if tier == "thorough" else 2):
+                r = slevel.run_internal(cfg, devs, (1, 1), 0, [(t0, first)], t_end, inject=(k, d), bus=cbus.CBus(rng, "fifo"))
+                if not r["inj"] or not r["inj"]["started"] or r["alert"] is None or r["inj"]["real"] >= t_end or r["inj"]["real"] < t0:
+                    continue
+                cases.append(dict(cfg=cfg, devs=devs, first=first, device=d, step=k, run=r))
+                terms.append(slevel.render_alert(cfg, 0, r["alert"]))
+    bad = run_shards(PID + "_alert2", ALERT_HEADER, "alert_case", "check_alert_case", terms, shard_size=40)
+    for i, c in enumerate(cases):
+        if c["run"]["error"] or c["run"]["errors"]:
+            bad.setdefault(i, []).append(36)
+    ck.coverage.update(alert_two_interrupt_runs=len(cases), alert_two_interrupt_disagreements=len(bad))
+    for i in sorted(bad):
+        c = cases[i]
+        code = bad[i][0]
+        ck.report("second-interrupt-not-served" if code in (36, 37) else "real-schedulers-leave-the-alert-protocol",
+                  f"interrupt of device c{c['first']} at {t0} ns and of device c{c['device']} at loop step {c['step']}: {ALERT_REASONS.get(code, code)}",
+                  dict(kind="alert_two", cfg={str(a): b for a, b in c["cfg"].items()}, devs={str(a): list(b) for a, b in c["devs"].items()},
+                       first=c["first"], device=c["device"], step=c["step"], codes=bad[i],
+                       updates={str(k): [t for t, _ in v] for k, v in c["run"]["per"].items()}), no_input=(code not in (34, 36, 37)))
+        break
 
 
 def main(tier, seed):
@@ -209,6 +253,7 @@ def main(tier, seed):
     mcases, mbad = m_part(ck, tier, rng)
     scases, sbad = s_part(ck, tier, rng)
     alert_part(ck, tier, rng)
+    alert_two_part(ck, tier, rng)
     done = set()
     for i in sorted(mbad):
         for code in mbad[i]:
@@ -242,6 +287,16 @@ def main(tier, seed):
 
 
 def replay(rp):
+    if rp["kind"] == "alert_two":
+        import cbus
+        cfg = {int(a): dict(order=[(c, kk) for c, kk in v["order"]], conns=[tuple(x) for x in v["conns"]]) for a, v in rp["cfg"].items()}
+        devs = {int(a): tuple(v) for a, v in rp["devs"].items()}
+        r = slevel.run_internal(cfg, devs, (1, 1), 0, [(100_000_333, rp["first"])], 400_000_003, inject=(rp["step"], rp["device"]),
+                                bus=cbus.CBus(random.Random(0), "fifo"))
+        bad = run_shards("replay", ALERT_HEADER, "alert_case", "check_alert_case", [slevel.render_alert(cfg, 0, r["alert"])])
+        print("updates:", {k: [t for t, _ in v] for k, v in r["per"].items()}, "error:", r["error"], r["errors"][:1])
+        print("codes:", bad.get(0, []))
+        return 1 if (bad or r["error"] or r["errors"]) else 0
     if rp["kind"] == "alert":
         cfg = {int(a): dict(order=[(c, kk) for c, kk in v["order"]], conns=[tuple(x) for x in v["conns"]]) for a, v in rp["cfg"].items()}
         devs = {int(a): tuple(v) for a, v in rp["devs"].items()}
